@@ -66,8 +66,10 @@ func twoProp(t *testing.T, k *verifkit.Kit) func(c twoCase) error {
 			var wg sync.WaitGroup
 			errs := make([]error, len(c.Ifaces))
 			for i, x := range c.Ifaces {
+				st.val[fmt.Sprintf("if%d", i)] = x.Autoconf0 // (all of them before the first Dialer runs)
+			}
+			for i, x := range c.Ifaces {
 				name := fmt.Sprintf("if%d", i)
-				st.val[name] = x.Autoconf0
 				mode := Advertise
 				if x.Monitor {
 					mode = Monitor
